@@ -78,6 +78,19 @@ fn gen_cases(seed: u64, session: usize, thorough: bool) -> Vec<Case> {
         cmds.push(g.gen_valid(&mut r));
         envs.push(g.env.clone());
     }
+    // rules are part of the state a rejected command must not change: every session ends by running the
+    // default ruleset and every ruleset it ever declared (a popped one answers no-such-ruleset in both
+    // sessions), so that the final dump observes rule behaviour, not only names
+    let mut all_rs: Vec<Name> = Vec::new();
+    for c in &cmds {
+        if let Cmd::Ruleset(n) = c {
+            all_rs.push(*n);
+        }
+    }
+    cmds.push(Cmd::Run(None, 2));
+    for n in all_rs {
+        cmds.push(Cmd::Run(Some(n), 2));
+    }
     let mut out = Vec::new();
     let mut m = 1000 + 0usize;
     let mut rid = 5000usize;
@@ -89,6 +102,19 @@ fn gen_cases(seed: u64, session: usize, thorough: bool) -> Vec<Case> {
             if let Some(mu) = gen::mutate(&envs[p], class, &mut r, &mut m, &mut rid) {
                 found = Some(mu);
                 break;
+            }
+        }
+        if !envs[p].rules.is_empty() {
+            if let Some(mu) = gen::mutate(&envs[p], "dup-rule-name", &mut r, &mut m, &mut rid) {
+                out.push(Case {
+                    index: 0,
+                    class: mu.class,
+                    sub: mu.sub,
+                    s1: cmds[..p].to_vec(),
+                    bad: mu.bad,
+                    probes: mu.probes,
+                    s2: cmds[p..].to_vec(),
+                });
             }
         }
         let Some(mu) = found else { continue };
@@ -170,7 +196,11 @@ fn compare_sessions(mode: Mode, with: &[String], bad_index: usize, dump_names: &
             // proofs/proof_encoding_helpers.rs:305 (`Function .. has no recorded sort`)
             key: kk(
                 "panic",
-                (a.outcomes[k].short().contains("no entry found for key") || a.outcomes[k].short().contains("has no recorded sort"))
+                (a.outcomes[k].short().contains("no entry found for key")
+                    || a.outcomes[k].short().contains("has no recorded sort")
+                    // second let of a global with another sort: the recorded global sort no longer matches
+                    // the global's table; a later query on it fails `query_table(..).unwrap()` (lib.rs:2776)
+                    || (sub == "shadow-decl/let-twice" && a.outcomes[k].short().contains("query_table: mismatch")))
                     && mentions_bad_name(&with[k]),
             ),
             input,
@@ -566,13 +596,16 @@ fn run_all(o: &Opts) -> i32 {
                     let with: Vec<String> = with_cmds.iter().map(|x| x.text()).collect();
                     let dn = c.dump_names();
                     let mut out = Out { viol: vec![], modes: vec![], model: (String::new(), vec![]) };
+            let modelled = with_cmds.iter().all(|x| x.is_modelled());
                     let modes: Vec<Mode> = if thorough || i % 3 == 0 { vec![Mode::Plain, Mode::Term, Mode::Proofs] } else { vec![Mode::Plain] };
                     for m in modes {
                         let r = compare_sessions(m, &with, c.s1.len(), &dn, c.sub);
                         out.modes.push((m, r.skipped_mode, r.accepted, r.bad_class.clone()));
                         out.viol.extend(r.violations);
                     }
-                    out.model = model_case(&with_cmds);
+                    if modelled {
+                        out.model = model_case(&with_cmds);
+                    }
                     outs.lock().unwrap()[i] = Some(out);
                 })
                 .unwrap();
@@ -610,7 +643,11 @@ fn run_all(o: &Opts) -> i32 {
                     "bad_rejected_as": out.modes.first().map(|m| m.3.clone())}));
             }
             violations.extend(out.viol);
-            w.push(out.model.0);
+            if !out.model.0.is_empty() {
+                w.push(out.model.0);
+            } else {
+                *result_hist.entry("not-modelled-session(rewrite)".into()).or_insert(0) += 1;
+            }
         }
     }
     w.flush();
